@@ -404,8 +404,18 @@ def cli_smoke(ctx):
 
 CLI_SCENARIOS = [("build", "test"), ("test", "build"), ("build", "run"), ("run", "build"), ("test", "run"), ("run", "test"), ("build", "build2"),
                  ("build", "test", "run"), ("run", "test", "build"), ("test", "run", "build2"),
-                 ("build", "clean", "build2"), ("test", "clean", "build"), ("run", "clean", "test"), ("build", "clean", "clean", "test")]
-CLI_ARGV = {"build": ["build", "//:b"], "build2": ["build", "//:b2"], "test": ["test", "//:unit_test"], "run": ["run", "//:app"], "clean": ["clean"]}
+                 ("build", "clean", "build2"), ("test", "clean", "build"), ("run", "clean", "test"), ("build", "clean", "clean", "test"),
+                 # `clean --expunge` run from ANOTHER workspace that shares GROG_ROOT, while a build of this workspace is running
+                 ("build", "expunge@other", "build2"), ("test", "expunge@other", "expunge@other", "run"),
+                 # the same workspace entered through a symlink ($PWD names the link), and from a sub-directory with a RELATIVE GROG_ROOT
+                 ("build", "build2@link"), ("build@link", "test"), ("build", "build2@sub"), ("run@sub", "build")]
+CLI_ARGV = {"build": ["build", "//:b"], "build2": ["build", "//:b2"], "test": ["test", "//:unit_test"], "run": ["run", "//:app"], "clean": ["clean"],
+            "expunge": ["clean", "--expunge"]}
+
+
+def cli_place(kind):
+    base_, _, where = kind.partition("@")
+    return base_, where
 
 
 def cli_scenario(grog, base, idx, kinds):
@@ -430,16 +440,29 @@ def cli_scenario(grog, base, idx, kinds):
         {"name": "app", "command": cmd("app", "printf '#!/bin/sh\\necho ran\\n' > app.sh; chmod +x app.sh; "), "bin_output": "app.sh", "tags": ["no-cache"]},
     ]}, open(os.path.join(ws, "BUILD.json"), "w"))
     env = dict(os.environ, GROG_ROOT=root, HOME=os.path.join(d, "home"), GOGC="1")
+    places = {w for _, w in map(cli_place, kinds)}
+    other, link, sub = os.path.join(d, "other-ws"), os.path.join(d, "ws-link"), os.path.join(ws, "sub")
+    if "other" in places:
+        os.makedirs(other)
+        open(os.path.join(other, "grog.toml"), "w").write("")
+    if "link" in places:
+        os.symlink(ws, link)
+    if "sub" in places:
+        os.makedirs(sub)
+        env["GROG_ROOT"] = "relroot"          # relative: must mean one directory for the whole workspace, not one per cwd
     procs = []
-    for k, kind in enumerate(kinds):
+    for k, kind_full in enumerate(kinds):
+        kind, where = cli_place(kind_full)
         before = os.path.getsize(trace)
-        p = subprocess.Popen([grog] + CLI_ARGV[kind], cwd=ws, env=env, stdout=subprocess.PIPE, stderr=subprocess.STDOUT)
+        cwd = {"": ws, "other": other, "link": link, "sub": sub}[where]
+        penv = dict(env, PWD=cwd)
+        p = subprocess.Popen([grog] + CLI_ARGV[kind], cwd=cwd, env=penv, stdout=subprocess.PIPE, stderr=subprocess.STDOUT)
         procs.append(p)
         t0 = time.time()
         # first command: wait until its target command runs (it holds the lock); later ones: give them 0.4 s
-        limit = 20 if k == 0 and kind != "clean" else 0.4
+        limit = 20 if k == 0 and kind not in ("clean", "expunge") else 0.4
         while time.time() - t0 < limit:
-            if kind == "clean":
+            if kind in ("clean", "expunge"):
                 if p.poll() is not None:
                     break
             elif os.path.getsize(trace) > before:
@@ -459,7 +482,9 @@ def cli_scenario(grog, base, idx, kinds):
         depth += 1 if t[0] == "B" else -1
         mx = max(mx, depth)
     shutil.rmtree(d, ignore_errors=True)
-    return {"commands": [" ".join(["grog"] + CLI_ARGV[k]) for k in kinds], "kinds": list(kinds), "trace": [" ".join(t) for t in toks],
+    where_txt = {"": "", "other": "   [in another workspace sharing GROG_ROOT]", "link": "   [cwd and $PWD = a symlink to the workspace]",
+                 "sub": "   [cwd = <workspace>/sub, GROG_ROOT=relroot (relative)]"}
+    return {"commands": [" ".join(["grog"] + CLI_ARGV[cli_place(k)[0]]) + where_txt[cli_place(k)[1]] for k in kinds], "kinds": list(kinds), "trace": [" ".join(t) for t in toks],
             "max_overlap": mx, "exit_codes": codes, "outputs": outs}
 
 
@@ -477,10 +502,10 @@ def cli_commands(ctx):
     for rec in recs:
         ctx.coverage["evaluations"] += 1
         summary.append({"commands": rec["kinds"], "max_overlap": rec["max_overlap"], "exit_codes": rec["exit_codes"]})
-        n_build = sum(1 for k in rec["kinds"] if k != "clean")
+        n_build = sum(1 for k in rec["kinds"] if cli_place(k)[0] not in ("clean", "expunge"))
         started = sum(1 for t in rec["trace"] if t.startswith("B "))
         if rec["max_overlap"] > 1:
-            kinds = sorted(set(k.rstrip("2") for k in rec["kinds"]))
+            kinds = sorted(set(k.replace("2", "") for k in rec["kinds"]))
             ctx.violation("target commands of different grog processes ran at the same time on one workspace: " + " | ".join(rec["commands"]),
                           {"kind": "oracle", "oracle": "CLI: commands that build serialise on the workspace lock (GOGC=1, output-heavy commands)", **rec},
                           signature="cli:overlap:" + "+".join(kinds))
@@ -488,7 +513,7 @@ def cli_commands(ctx):
             ctx.violation("a grog command failed (or did not run its target) only because another grog command ran on the same workspace: "
                           + " | ".join(rec["commands"]) + f" -> exit codes {rec['exit_codes']}",
                           {"kind": "oracle", "oracle": "CLI: concurrent commands do not break each other", **rec},
-                          signature="cli:concurrent-command-fails:" + "+".join(sorted(set(k.rstrip("2") for k in rec["kinds"]))))
+                          signature="cli:concurrent-command-fails:" + "+".join(sorted(set(k.replace("2", "") for k in rec["kinds"]))))
     ctx.coverage.setdefault("cli_smoke", {})["command_mixes"] = summary
 
 
